@@ -167,6 +167,7 @@ static int fi_applicable(const char* name, int e, const char* attr, int fd) {
    object of the call (descriptor, buffer, path), [rest] the other arguments (length, flags, offset);
    ident == 0: not tracked.  Checked when the very next fault point of that thread class is the same
    call on the same object right after an injected EINTR. */
+ssize_t __real_write(int, const void*, size_t);
 static struct { int pending, id; unsigned long ident, rest; long seq; } fi_intr[2];
 static long fi_seq_cls[2];
 static int fi_hit_args(const char* name, int fd, unsigned long ident, unsigned long rest);
@@ -187,6 +188,8 @@ static int fi_hit_args(const char* name, int fd, unsigned long ident, unsigned l
     char t[160];
     snprintf(t, sizeof t, "RETRYARGS:%s:%lx->%lx ", name, fi_intr[cls].rest, rest);
     buf_add(&ev_buf, &ev_len, &ev_cap, t);
+    /* also on stderr at once: the retried call may well destroy the process */
+    if (__real_write(2, t, strlen(t)) < 0 || __real_write(2, "\n", 1) < 0) {}
   }
   fi_intr[cls].pending = 0;
   for (i = 0; i < fi_nfaults; i++) {
